@@ -50,6 +50,7 @@ struct JanetAssembler {
     int32_t environments_capacity;
     int32_t defs_capacity;
     int32_t bytecode_count; /* Used for calculating labels */
+    int32_t depth; /* Nesting depth of sub funcdefs, bounded to protect the C stack */
 
     Janet name;
     JanetTable labels; /* keyword -> bytecode index */
@@ -503,6 +504,7 @@ static JanetAssembleResult janet_asm1(JanetAssembler *parent, Janet source, int 
     /* Initialize Assembler */
     a.def = def;
     a.parent = parent;
+    a.depth = (NULL != parent) ? parent->depth + 1 : 0;
     a.errmessage = NULL;
     a.errindex = 0;
     a.environments_capacity = 0;
@@ -530,6 +532,10 @@ static JanetAssembleResult janet_asm1(JanetAssembler *parent, Janet source, int 
         result.status = JANET_ASSEMBLE_ERROR;
         janet_asm_deinit(&a);
         return result;
+    }
+
+    if (a.depth >= JANET_RECURSION_GUARD) {
+        janet_asm_error(&a, "recursed too deeply");
     }
 
     janet_asm_assert(&a,
